@@ -51,6 +51,11 @@ CHECKS = {
          "BFS over all prefixes (depth 4, thorough 5) of connect exchanges (CONNECT/AUTH/WILLTOPIC/WILLMSG variants, broker CONNACKs, 2 s pauses; auth off and on); after each prefix 10 s of silence: a session with a CONNECT not yet accepted must have returned by CONNECT time + 5 s + one 100 ms poll, with the broker connection closed.",
          "Default schedule; virtual clock; in-memory conns with faithful read-deadline polling.",
          "3 C10"),
+ "C11": ("model_checking",
+         "explicit-state BFS over sleep/wake cycle histories with the client's own sleep view as monitor + stateless schedule exploration of publishes racing with PINGREQ/DISCONNECT",
+         "BFS (depth 7, thorough 9) over DISCONNECT(d) / broker PUBLISH (registered, short, new topic; QoS 0-2) / PUBREL / retry and pinger timers / PINGREQ wake-ups / client acknowledgements of flushed packets / CONNECT / repeated DISCONNECT(d): nothing is sent while the client's view is asleep, on wake-up exactly the owed packets once and in order followed by PINGRESP, asleep again afterwards (several cycles). E2 scenarios: a broker PUBLISH concurrent with the wake-up PINGREQ (0,1,2 packets buffered) or with the sleep request, all interleavings within the preemption bound with points at the state atomic, the send lock, conn writes and every packet-buffer access; a second wake-up collects what was left.",
+         "BFS: default schedule; reference list of owed packets (retransmissions are not owed). E2: preemption bound 2 (thorough up to 4).",
+         "3 C11"),
  "C13": ("model_checking",
          "explicit-state BFS over session histories x every termination cause (crash-point enumeration) + stateless schedule exploration of causes racing with in-flight events and timers",
          "BFS (depth 5, thorough 7; auth off/on) reaching disconnected/connecting/active/asleep/awake and pending client and broker exchanges; in every state each of 7 termination causes is injected and after 300 ms of polls the monitor checks: returned within one poll interval, broker conn closed, DISCONNECT to the client exactly when it was active/awake and did not disconnect itself, no session goroutine alive after firing all remaining timers, nothing sent after return. E2 scenarios explore the cause racing with a retry/connect timer or an incoming publish within a preemption bound.",
